@@ -322,6 +322,57 @@ func (e *Engine) reflectIntrinsic(fn *ssa.Function, full string, args []Value) (
 		tag := e.mustStr(args[0], "StructTag.Get")
 		key := e.mustStr(args[1], "StructTag.Get")
 		return mkStr(reflect.StructTag(tag).Get(key)), true
+	case "(reflect.Value).Cap":
+		r := args[0].(RVal)
+		if v, ok := r.load().(SliceVal); ok {
+			return mkInt(int64(v.cap)), true
+		}
+		e.goPanic("reflect: call of reflect.Value.Cap on unsupported value")
+	case "(reflect.Value).Grow":
+		r := args[0].(RVal)
+		n := int(e.mustInt(args[1], "reflect.Value.Grow"))
+		sv, ok := r.load().(SliceVal)
+		if !ok || r.slot == nil || n < 0 {
+			e.goPanic("reflect.Value.Grow of an unaddressable or non-slice value, or negative n")
+		}
+		if sv.len+n > sv.cap {
+			et := r.typ.Underlying().(*types.Slice).Elem()
+			nc := sv.len + n
+			av := &ArrayVal{elems: make([]Value, nc)}
+			for j := range av.elems {
+				if j < sv.len {
+					av.elems[j] = sv.arr.elems[sv.off+j]
+				} else {
+					av.elems[j] = zero(et)
+				}
+			}
+			assign(r.slot, SliceVal{arr: av, len: sv.len, cap: nc})
+		}
+		return nil, true
+	case "(reflect.Value).SetLen":
+		r := args[0].(RVal)
+		n := int(e.mustInt(args[1], "reflect.Value.SetLen"))
+		sv, ok := r.load().(SliceVal)
+		if !ok || r.slot == nil {
+			e.goPanic("reflect.Value.SetLen of an unaddressable or non-slice value")
+		}
+		if n < 0 || n > sv.cap {
+			e.goPanic("reflect: slice length out of range in SetLen")
+		}
+		sv.len = n
+		assign(r.slot, sv)
+		return nil, true
+	case "(reflect.Value).Index":
+		r := args[0].(RVal)
+		i := int(e.mustInt(args[1], "reflect.Value.Index"))
+		switch v := r.load().(type) {
+		case SliceVal:
+			if i < 0 || i >= v.len {
+				e.goPanic("reflect: slice index out of range")
+			}
+			return RVal{typ: r.typ.Underlying().(*types.Slice).Elem(), slot: &v.arr.elems[v.off+i]}, true
+		}
+		unsupported("reflect.Value.Index on %T", r.load())
 	case "(reflect.Value).Len":
 		r := args[0].(RVal)
 		switch v := r.load().(type) {
@@ -411,4 +462,14 @@ func (e *Engine) rtypeMethod(rt RType, name string, args []Value) Value {
 	}
 	unsupported("reflect.Type.%s", name)
 	return nil
+}
+
+// mustInt: a concrete integer operand (sizes and indices in the reflective
+// paths are concrete on every path).
+func (e *Engine) mustInt(v Value, what string) int64 {
+	t, ok := v.(*Term)
+	if !ok || !t.konst {
+		unsupported("%s with a symbolic operand", what)
+	}
+	return t.iv
 }
